@@ -4,6 +4,7 @@ import MindsVerif.Lemmas.SemPlan3
 import MindsVerif.Lemmas.SemSetOps
 import MindsVerif.Lemmas.SemChain
 import MindsVerif.Lemmas.SemLimit
+import MindsVerif.Lemmas.SemSeq
 /-!
 # C08 — executing a federated plan returns what the original query returns
 
@@ -388,6 +389,55 @@ theorem C08_T81_third_table (F : List TRow) (n c0 c1 : Nat) (J : List (TRow × T
   intro on s
   exact ⟨third_table_restrict_inner on Prod.mk s J R (third_table_semi_ok F n c0 c1 J hJ),
          third_table_restrict_left on Prod.mk nr s J R (third_table_semi_ok F n c0 c1 J hJ)⟩
+
+/-! ## n-table chains: which tables a later outer join pads with NULLs (`mark_nullable_tables`) -/
+
+/-- closed form of the literal loop, for chains of ANY length: the first table is null-supplied iff some join of the chain
+is RIGHT / FULL; table i ≥ 1 iff its own join is LEFT / FULL or a LATER join is RIGHT / FULL (`nullableTail`) -/
+theorem C08_markNullable_spec (ks : List JoinKind) :
+    markNullable ks = ks.any JoinKind.padsLeft :: nullableTail ks :=
+  markNullable_spec ks
+
+/-- the two-table fragment (`nullableSide`) is the one-join instance -/
+theorem C08_nullableSide_eq_chain (k : JoinKind) : markNullable [k] = [nullableSide k 0, nullableSide k 1] :=
+  nullableSide_eq_chain k
+
+/-- samples: `a JOIN b RIGHT JOIN c` flags a AND b; `a LEFT JOIN b JOIN c FULL JOIN d` flags everything -/
+example : markNullable [.inner, .right] = [true, true, false] ∧ markNullable [.right, .inner] = [true, false, false] ∧
+    markNullable [.left, .inner, .full] = [true, true, true, true] ∧
+    markNullable [.left, .inner, .left] = [false, true, false, true] := by decide
+
+/-- **three tables**: a filter implied by WHERE may be pushed into the fetch of the FIRST table of `(L k1 R1) k2 R2`
+(`k1` inner / LEFT) for every later join kind `k2`, provided that it rejects the padded row whenever `k2` is RIGHT / FULL —
+i.e. whenever `markNullable [k1, k2]` flags the first table -/
+theorem C08_chain3_push_first {α β γ δ ε : Type} (k1 k2 : JoinKind) (hk1 : k1.padsLeft = false)
+    (on1 : α → β → Bool) (mk1 : α → β → γ) (nl1 : α) (nr1 : β)
+    (on2 : γ → δ → Bool) (mk2 : γ → δ → ε) (nl2 : γ) (nr2 : δ)
+    (w : ε → Bool) (p : α → Bool) (p' : γ → Bool) (hp : ∀ l r, p' (mk1 l r) = p l)
+    (hw : ∀ x r2, w (mk2 x r2) = true → p' x = true) (hn : k2.padsLeft = true → p' nl2 = false)
+    (L : List α) (R1 : List β) (R2 : List δ) :
+    (joinG k2 on2 mk2 nl2 nr2 (joinG k1 on1 mk1 nl1 nr1 (L.filter p) R1) R2).filter w
+      = (joinG k2 on2 mk2 nl2 nr2 (joinG k1 on1 mk1 nl1 nr1 L R1) R2).filter w :=
+  chain3_push_first k1 k2 hk1 on1 mk1 nl1 nr1 on2 mk2 nl2 nr2 w p p' hp hw hn L R1 R2
+
+/-- the flag of the first table of a three-table chain is exactly the side condition of `C08_chain3_push_first` -/
+theorem C08_chain3_flag (k1 k2 : JoinKind) (hk1 : k1.padsLeft = false) :
+    (markNullable [k1, k2]).head? = some k2.padsLeft := by
+  cases k1 <;> cases k2 <;> simp_all [JoinKind.padsLeft] <;> rfl
+
+/-- `a JOIN b ON a.id = b.id RIGHT JOIN c ON b.id = c.id WHERE a.x IS NULL`: pushing `x IS NULL` into a's fetch (what a
+planner that looks only at the table just before the RIGHT join would do) loses the matching a-row with `x = 1`, the RIGHT
+join pads NULLs and the re-applied filter accepts the row -/
+def ch3A : List TRow := [[.int 1, .int 1]]
+def ch3B : List TRow := [[.int 1]]
+def ch3C : List TRow := [[.int 1]]
+def ch3w (x : (TRow × TRow) × TRow) : Bool := x.1.1.col 1 == .null
+def ch3j (A : List TRow) : List ((TRow × TRow) × TRow) :=
+  joinG .right (fun (x : TRow × TRow) (c : TRow) => eqOn 0 0 x.2 c) Prod.mk (nullRow 2, nullRow 1) (nullRow 1)
+    (joinG .inner (eqOn 0 0) Prod.mk (nullRow 2) (nullRow 1) A ch3B) ch3C
+
+theorem C08_witness_chain3_isnull :
+    (ch3j (ch3A.filter fun a => a.col 1 == .null)).filter ch3w ≠ (ch3j ch3A).filter ch3w := by decide
 
 /-! ## UNION / CTE planning is compositional -/
 
